@@ -275,10 +275,23 @@ theorem fastLoop_le {n : Nat} (sn ts fr : U32) (l : List Seg) (h : SegsLe n l) :
 theorem keep_parseUna {a k : Kcp} (h : Keep a k) (una : U32) : Keep a (parseUna k una).1 :=
   h.of_buf rfl rfl rfl rfl (fun _ hn x hx => hn x (List.mem_of_mem_drop hx))
 
+theorem dropAcked_le {n : Nat} (l : List Seg) (h : SegsLe n l) : SegsLe n (dropAcked l) := by
+  induction l with
+  | nil => exact h
+  | cons s rest ih =>
+    unfold dropAcked
+    split
+    · exact ih (fun x hx => h x (List.mem_cons_of_mem _ hx))
+    · exact h
+
+/-- `shrink_buf` only pops acknowledged head segments (and moves `snd_una`) -/
 theorem keep_shrinkBuf {a k : Kcp} (h : Keep a k) : Keep a (shrinkBuf k) := by
-  apply h.of_view
   unfold shrinkBuf
-  split <;> rfl
+  split
+  · rename_i s rest hd
+    exact h.of_buf rfl rfl rfl rfl (fun n hn => by
+      show SegsLe n (s :: rest); rw [← hd]; exact dropAcked_le _ hn)
+  · exact h.of_buf rfl rfl rfl rfl (fun n _ x hx => by cases hx)
 
 theorem keep_parseAck {a k : Kcp} (h : Keep a k) (sn : U32) : Keep a (parseAck k sn) := by
   unfold parseAck
@@ -333,7 +346,7 @@ def inputCmd (data : Bytes) (st1 : InLoop) : InLoop :=
   let length := (rd32 data 20).toNat
   let body := data.drop IKCP_OVERHEAD
   if cmd.toNat = IKCP_CMD_ACK then
-    let k2 := parseAck st1.k sn
+    let k2 := shrinkBuf (parseAck st1.k sn)
     let pf := parseFastack k2 sn ts
     { st1 with k := pf.1, flushSeg := st1.flushSeg || pf.2, updRtt := true, latest := ts }
   else if cmd.toNat = IKCP_CMD_PUSH then
@@ -380,7 +393,7 @@ theorem inputCmd_keep (data : Bytes) (st1 : InLoop) {a : Kcp} (h : Keep a st1.k)
   unfold inputCmd
   simp only []
   split
-  · exact ⟨keep_parseFastack (keep_parseAck h _) _ _, hp⟩
+  · exact ⟨keep_parseFastack (keep_shrinkBuf (keep_parseAck h _)) _ _, hp⟩
   split
   · split
     · split
